@@ -259,6 +259,22 @@ def check_transfer(case):
             out = _as2d(tt.transform(Z)) if getattr(np.asarray(tt.transform(Z)), "ndim", 2) else None
             exp = _as2d(getattr(pickle.loads(blob), eff)(Z))
             require(np.array_equal(np.asarray(_as2d(tt.transform(Z))), exp, equal_nan=True), "transfer:transform-differs", "transform is not the wrapped estimator's %s" % eff, facts)
+            if case["copy_estimator"] and case.get("mutate_original"):
+                # a copy is independent: updating the original's fitted arrays in place afterwards (what partial_fit or a
+                # warm-started refit do) must not change what the frozen copy answers
+                touched = 0
+                for attr, val in list(vars(est).items()):
+                    if attr.endswith("_") and isinstance(val, np.ndarray) and val.dtype.kind == "f" and val.size:
+                        val *= 1.5
+                        val += 0.25
+                        touched += 1
+                if touched:
+                    require(np.array_equal(np.asarray(_as2d(tt.transform(Z))), exp, equal_nan=True), "transfer:copy-shares-state",
+                            "copy_estimator=True but the transfer's output changed when the original estimator's fitted arrays were updated in place", facts)
+                    # restore the original for the rest of the history
+                    est = pickle.loads(blob)
+                    tt.estimator = est
+                    before = _state(est, Z)
         else:
             ref = clone(R.build(case["estimator"])).fit(X, y)
             Zt = np.vstack([X[:4], X[::3]])
@@ -284,6 +300,7 @@ def _transfer_cases(draw, tier="quick"):
     d = len(ds[0]["X"][0])
     ds[1]["X"] = [(row + [0.0] * d)[:d] for row in ds[1]["X"]]
     return dict(estimator=est, method=draw(st.sampled_from(ms)), copy_estimator=draw(st.booleans()), trainable=draw(st.booleans()), datasets=ds,
+                mutate_original=draw(st.booleans()),
                 history=[draw(st.integers(0, 1)) for _ in range(draw(st.integers(1, 3)))])
 
 
